@@ -1,34 +1,34 @@
 CONSTANTS
   Server = {1, 2, 3}
-  Campaigners = {1, 2, 3}
-  MaxTerm = 1
-  MaxProposals = 0
-  MaxCrashes = 1
+  Campaigners = {1, 2}
+  MaxTerm = 2
+  MaxProposals = 1
+  MaxCrashes = 0
   MaxDrops = 0
   MaxDups = 0
-  MaxHeartbeats = 0
-  MaxLog = 2
-  MaxNet = 6
+  MaxHeartbeats = 1
+  MaxLog = 4
+  MaxNet = 3
   MaxEnts = 0
-  LossySend = FALSE
+  LossySend = TRUE
   SimDepth = 0
   W_CommitAnyTerm = FALSE
   W_VoteIgnoreVoted = FALSE
   W_VoteIgnoreLog = FALSE
-  W_NoPersistVote = TRUE
+  W_NoPersistVote = FALSE
   W_AppendAlwaysTruncates = FALSE
   W_HeartbeatCommitUnbounded = FALSE
   W_QuorumMinusOne = FALSE
   PreVote = FALSE
   W_PreVoteRespCountsAsVote = FALSE
-  ConfChange = FALSE
-  InitVoters = {1, 2, 3}
-  AddVoters = {}
+  ConfChange = TRUE
+  InitVoters = {1, 2}
+  AddVoters = {3}
   RemoveVoters = {}
-  MaxConfChanges = 0
+  MaxConfChanges = 1
   MaxConfRefusals = 0
   W_ConfChangeNoPendingCheck = FALSE
-  W_AddedVoterCaughtUp = FALSE
+  W_AddedVoterCaughtUp = TRUE
 INIT Init
 NEXT Next
 CONSTRAINT NetBound
